@@ -102,6 +102,9 @@ def genCode (kind : String) (T i state : Nat) : Option (Nat × Nat) :=
   else if kind = "skew" then
     let st := lcg state; let r := (st >>> 33) % 1000
     some (if r < 900 then (r % 3) % T else (st >>> 43) % T, st)
+  else if kind = "dom" then
+    if i < 40000 then some (state % T, state)
+    else some ((((i * 6364136223846793005 + state * 1442695040888963407 + 12345) % W64) >>> 33) % T, state)
   else if kind = "fib" then
     let rec go (fuel a b lo sym : Nat) : Nat :=
       match fuel with
